@@ -258,7 +258,8 @@ const KEY_CHARS: [&str; 34] = [
 
 /// characters that appear in texts in addition to key characters (un-normalised variants,
 /// combining marks, expansions, brackets, prolonged sound marks, controls)
-const TEXT_CHARS: [&str; 44] = [
+const TEXT_CHARS: [&str; 47] = [
+    "…", "㈱", "Ⅲ",
     "Ａ", "Ｂ", "ｘ", "１", "２", "ｱ", "ｲ", "ｶ", "ﾞ", "A", "B", "X", "〜", "～", "-", "ー", "(", ")", "（", "）", " ",
     "　", "\u{3099}", "\u{0301}", "\u{200d}", "\u{fe0f}", "㍿", "㌔", "ｶﾞ", "、", ".", ",", "3", "0", "百", "千",
     "万", "ー", "ヴ", "え", "\u{0}", "\t", "Ω", "я",
